@@ -74,9 +74,10 @@ def parse(model_out):
         if c == 'RAISE':
             out.append(None)
             continue
-        log, _, ret = c.partition(';')
+        fs = c.split(';')
+        log, ret = fs[0], fs[1] if len(fs) > 1 else ''
         names = [] if log in ('-', '') else log.split(',')
-        out.append((set(n for n in names if not n.endswith('[]') and '.' not in n), set(n[:-2] for n in names if n.endswith('[]')), ret))
+        out.append((set(n for n in names if not n.endswith('[]') and '.' not in n), set(n[:-2] for n in names if n.endswith('[]')), ret) + tuple(fs[2:]))
     return out
 
 
@@ -98,6 +99,10 @@ def compare_calls(ctx, label, what, impl, model):
                           % (label, what, k, 'raises' if got is None else 'returns', 'raises' if mo is None else 'returns'))
                 return False
             return True
+        if len(mo) > 3 and len(got) > 3 and mo[3] != got[3]:
+            ctx.alarm('correspondence', '%s (%s): after call %d the slots %s of the flag buffer are set, in the regenerated step function the slots %s'
+                      % (label, what, k, got[3] or 'none', mo[3] or 'none'))
+            return False
         if mo[0] != got[0] or mo[1] != got[1] or not same_kind(mo[2], got[2]):
             ctx.alarm('correspondence', '%s (%s): call %d replaces the attributes %s, writes %s in place and returns %s; the regenerated step '
                       'function stores %s, writes %s in place and returns %s' % (label, what, k, sorted(got[0]), sorted(got[1]), got[2],
@@ -142,11 +147,12 @@ def check_propagator_object(ctx):
         method, ptype = rng.randrange(2), rng.randrange(2)
         nch, nd, nf = rng.randint(1, 3), rng.randint(1, 2), rng.randint(1, 2)
         dgiven, pgiven, apgiven = rng.random() < 0.5, rng.random() < 0.5, rng.random() < 0.5
-        lams = [0.5 + 0.07 * k for k in range(nch)]
-        args = dict(resolution=[6, 6], wavelengths=lams, pixel_pitch=0.9, number_of_frames=nf, number_of_depth_layers=nd, volume_depth=1.0,
-                    image_location_offset=0.5, propagator_type=TYPES[ptype], back_and_forth_distance=1.3, method=METHODS[method],
-                    propagation_type='Bandlimited Angular Spectrum')
-        dist0 = torch.linspace(0.4, 1.1, nd) if dgiven else None
+        si = rng.random() < 0.4                       # metres: wavelengths a few nanometres apart (any absolute tolerance somewhere would merge them)
+        lams = [515e-9 + 5e-9 * k for k in range(nch)] if si else [0.5 + 0.07 * k for k in range(nch)]
+        args = dict(resolution=[6, 6], wavelengths=lams, pixel_pitch=8e-6 if si else 0.9, number_of_frames=nf, number_of_depth_layers=nd,
+                    volume_depth=1e-3 if si else 1.0, image_location_offset=5e-4 if si else 0.5, propagator_type=TYPES[ptype],
+                    back_and_forth_distance=2e-3 if si else 1.3, method=METHODS[method], propagation_type='Bandlimited Angular Spectrum')
+        dist0 = (torch.linspace(4e-4, 1.1e-3, nd) if si else torch.linspace(0.4, 1.1, nd)) if dgiven else None
         pow0 = (torch.rand(nf, nch, generator=gen(3 + it)) + 0.2) if pgiven else None
         ap0 = (torch.rand(6, 6, generator=gen(5 + it)) + 0.1) if apgiven else None
 
@@ -239,7 +245,8 @@ def check_propagator_object(ctx):
                 break
             after = snapshot(p)
             rep, inp = observe(before, after)
-            impl.append((rep, inp, classify(ret, after, [h_[0] for h_ in handed])))
+            flags = ' '.join(sorted('%d.%d' % (int(i_), int(j_)) for i_, j_ in p.generated_kernels.nonzero().tolist()))
+            impl.append((rep, inp, classify(ret, after, [h_[0] for h_ in handed]), flags))
             if isinstance(ret, torch.Tensor):
                 handed.append((ret, ret.detach().clone(), k, c[0]))
             # property monitor (1): the value a NEW object returns for the same arguments
@@ -254,8 +261,8 @@ def check_propagator_object(ctx):
                 ctx.violation('propagator: the tensor returned by call %d (%s) of the sequence %s was changed by a later call'
                               % (k, fn, [c_[0] for c_ in calls]), dict(rec, failing_call=k), {'what': 'returned_buffer_overwritten', 'fn': fn, 'object': 'propagator'})
                 break
-        ctx.case(('gpo', method, ptype, nch, nd, nf, dgiven, pgiven, apgiven, tuple(c[0] for c in calls)), True, rec if it < 2 else None)
-        ctx.count('regenerated object vs replaced attributes/propagator/%s/%s' % (METHODS[method], TYPES[ptype]))
+        ctx.case(('gpo', method, ptype, nch, nd, nf, dgiven, pgiven, apgiven, si, tuple(c[0] for c in calls)), True, rec if it < 2 else None)
+        ctx.count('regenerated object vs replaced attributes/propagator/%s/%s%s' % (METHODS[method], TYPES[ptype], '/SI units' if si else ''))
         ctx.traces += 1
         compare_calls(ctx, 'propagator', 'configuration %s, calls %s' % (line.split(' ')[1:10], calls), impl, model)
 
